@@ -6,10 +6,14 @@ import (
 	"crypto/sha512"
 	"fmt"
 	"math/big"
+	"strings"
 	"testing"
 
 	"github.com/cloudflare/circl/group"
 	"github.com/cloudflare/circl/kem"
+	"github.com/cloudflare/circl/kem/mlkem/mlkem1024"
+	"github.com/cloudflare/circl/kem/mlkem/mlkem512"
+	"github.com/cloudflare/circl/kem/mlkem/mlkem768"
 	"github.com/cloudflare/circl/kem/schemes"
 	"github.com/cloudflare/circl/oprf"
 	"github.com/cloudflare/circl/sign/ed25519"
@@ -131,6 +135,100 @@ func TestC09Ed25519Verify(t *testing.T) {
 // ---------------------------------------------------------------------------
 // group.Element of P-256 / P-384 / P-521 (SEC 1) and ristretto255 (RFC 9496),
 // and OPRF public keys over the same groups.
+
+var groupUsedStates = []string{"generator", "identity", "sum", "random-element", "after-rejected-decode", "same-input-twice"}
+
+// usedElement decodes b into a fresh group.Element and into one that already holds a value and
+// compares verdict, both serialisations, IsIdentity and equality with the freshly decoded element.
+func usedElement(t vlib.TB, g group.Group, entry, sub string, b []byte) {
+	var freshVal group.Element
+	look := func(e group.Element) recvObs {
+		return observe(func(o *recvObs) {
+			o.accepted = e.UnmarshalBinary(b) == nil
+			if !o.accepted {
+				return
+			}
+			u, err1 := e.MarshalBinary()
+			c, err2 := e.MarshalBinaryCompress()
+			o.views = [][]byte{u, c}
+			o.flags = []bool{err1 == nil, err2 == nil, e.IsIdentity()}
+			if freshVal != nil {
+				o.flags = append(o.flags, e.IsEqual(freshVal), freshVal.IsEqual(e))
+			} else {
+				o.flags = append(o.flags, true, true)
+			}
+		})
+	}
+	fe := g.NewElement()
+	fresh := look(fe)
+	if fresh.accepted && fresh.pan == "" {
+		freshVal = fe
+	}
+	st := recvState(b, len(groupUsedStates))
+	var ue group.Element
+	switch st {
+	case 0:
+		ue = g.Generator()
+	case 1:
+		ue = g.Identity()
+	case 2:
+		ue = g.NewElement().Add(g.Generator(), g.NewElement().Dbl(g.Generator()))
+	case 3:
+		ue = g.RandomElement(vlib.NewReader(vlib.Hash64(b)))
+	case 4:
+		ue = g.Generator()
+		vlib.Catch(func() { _ = ue.UnmarshalBinary(garbage(len(b))) })
+	default:
+		ue = g.Generator()
+		vlib.Catch(func() { _ = ue.UnmarshalBinary(b) })
+	}
+	ser := func() [][]byte {
+		o, _ := ue.MarshalBinary()
+		return [][]byte{o}
+	}
+	var before, after [][]byte
+	vlib.Catch(func() { before = ser() })
+	used := look(ue)
+	if !used.accepted {
+		vlib.Catch(func() { after = ser() })
+	}
+	judgeUsed(t, entry, sub, groupUsedStates[st], b, fresh, used, before, after)
+}
+
+// usedOPRFKey does the same for oprf.PublicKey (only MarshalBinary is observable).
+func usedOPRFKey(t vlib.TB, suite oprf.Suite, entry, sub string, b []byte) {
+	look := func(pk *oprf.PublicKey) recvObs {
+		return observe(func(o *recvObs) {
+			o.accepted = pk.UnmarshalBinary(suite, b) == nil
+			if !o.accepted {
+				return
+			}
+			out, err := pk.MarshalBinary()
+			o.views = [][]byte{out}
+			o.flags = []bool{err == nil}
+		})
+	}
+	fresh := look(new(oprf.PublicKey))
+	states := []string{"other-key", "after-rejected-decode", "same-input-twice"}
+	st := recvState(b, len(states))
+	up := new(oprf.PublicKey)
+	switch st {
+	case 0:
+		seed := make([]byte, 32)
+		vlib.ExpandInto(seed, vlib.Hash64(b))
+		sk, err := oprf.DeriveKey(suite, oprf.VerifiableMode, seed, nil)
+		if err != nil {
+			return
+		}
+		up = sk.Public()
+	case 1:
+		vlib.Catch(func() { _ = up.UnmarshalBinary(suite, garbage(len(b))) })
+	default:
+		vlib.Catch(func() { _ = up.UnmarshalBinary(suite, b) })
+	}
+	used := look(up)
+	judgeUsed(t, entry, sub, states[st], b, fresh, used, nil, nil)
+}
 
 type secFmt struct {
 	name string
@@ -326,6 +424,11 @@ func genSEC(t *rapid.T, f secFmt, kind string) (b []byte, valid bool, orig group
 func checkSEC(t vlib.TB, f secFmt, sub, entry string, b []byte, kind string, valid bool, orig group.Element,
 	unmarshal func([]byte) (func(compressed bool) ([]byte, error), group.Element, error), sameFormatOnly bool) {
 	vlib.Eval(sub)
+	if sameFormatOnly {
+		usedOPRFKey(t, oprfSuites[f.name], entry, sub, b)
+	} else {
+		usedElement(t, f.g, entry, sub, b)
+	}
 	var marshal func(bool) ([]byte, error)
 	var e group.Element
 	var err error
@@ -533,6 +636,11 @@ func genR255(t *rapid.T, kind string) (b []byte, valid bool, orig group.Element)
 func checkR255(t vlib.TB, sub, entry string, b []byte, kind string, valid bool, orig group.Element,
 	unmarshal func([]byte) (func() ([]byte, error), group.Element, error)) {
 	vlib.Eval(sub)
+	if strings.HasPrefix(entry, "oprf.") {
+		usedOPRFKey(t, oprf.SuiteRistretto255, entry, sub, b)
+	} else {
+		usedElement(t, group.Ristretto255, entry, sub, b)
+	}
 	var marshal func() ([]byte, error)
 	var e group.Element
 	var err error
@@ -646,6 +754,72 @@ func setCoeff(ek []byte, i int, v uint16) {
 	}
 }
 
+// mlkemUnpackers give access to the receiver-style decoder PublicKey.Unpack of the three ML-KEM packages.
+type mlkemPK interface {
+	Unpack([]byte) error
+	MarshalBinary() ([]byte, error)
+	Equal(kem.PublicKey) bool
+}
+
+var mlkemNew = map[string]func() mlkemPK{
+	"ML-KEM-512":  func() mlkemPK { return new(mlkem512.PublicKey) },
+	"ML-KEM-768":  func() mlkemPK { return new(mlkem768.PublicKey) },
+	"ML-KEM-1024": func() mlkemPK { return new(mlkem1024.PublicKey) },
+}
+
+// usedMLKEM decodes b with PublicKey.Unpack into a fresh key object and into one that already
+// holds another key (or the remains of a rejected decode).
+func usedMLKEM(t vlib.TB, name, sub string, s kem.Scheme, b []byte) {
+	mk := mlkemNew[name]
+	if mk == nil {
+		return
+	}
+	var freshVal mlkemPK
+	look := func(pk mlkemPK) recvObs {
+		return observe(func(o *recvObs) {
+			o.accepted = pk.Unpack(b) == nil
+			if !o.accepted {
+				return
+			}
+			out, err := pk.MarshalBinary()
+			o.views = [][]byte{out}
+			o.flags = []bool{err == nil}
+			if freshVal != nil {
+				o.flags = append(o.flags, pk.Equal(freshVal.(kem.PublicKey)), freshVal.Equal(pk.(kem.PublicKey)))
+			} else {
+				o.flags = append(o.flags, true, true)
+			}
+		})
+	}
+	fp := mk()
+	fresh := look(fp)
+	if fresh.accepted && fresh.pan == "" {
+		freshVal = fp
+	}
+	states := []string{"other-key", "after-rejected-decode", "same-input-twice"}
+	st := recvState(b, len(states))
+	up := mk()
+	switch st {
+	case 0:
+		seed := make([]byte, s.SeedSize())
+		vlib.ExpandInto(seed, vlib.Hash64(b))
+		pk, _ := s.DeriveKeyPair(seed)
+		v, _ := pk.MarshalBinary()
+		_ = up.Unpack(v)
+	case 1:
+		_ = up.Unpack(garbage(len(b)))
+	default:
+		_ = up.Unpack(b)
+	}
+	var before, after [][]byte
+	vlib.Catch(func() { o, _ := up.MarshalBinary(); before = [][]byte{o} })
+	used := look(up)
+	if !used.accepted {
+		vlib.Catch(func() { o, _ := up.MarshalBinary(); after = [][]byte{o} })
+	}
+	judgeUsed(t, name+".PublicKey.Unpack", sub, states[st], b, fresh, used, before, after)
+}
+
 func TestC09MLKEM(t *testing.T) {
 	defer vlib.Done()
 	selftest(t)
@@ -719,6 +893,7 @@ func TestC09MLKEM(t *testing.T) {
 				}
 				valid := eq(b, v)
 				vlib.Eval(sub)
+				usedMLKEM(t, f.name, sub, s, b)
 				var pk2 kem.PublicKey
 				if pn, _ := vlib.Catch(func() { pk2, err = s.UnmarshalBinaryPublicKey(b) }); pn != nil {
 					vlib.Class(sub, "panic(counted; property C10): "+vlib.PanicClass(pn))
